@@ -200,15 +200,10 @@ fn oracle(rec: &mut Recorder, d: &Decl, accepted: Option<&str>, documented: Opti
                 rec.fail(&format!("padding_in_{}", d.mac.tok()), &format!("{} [{}] -> pad={}", d.sexpr(), label, pad));
             }
             if d.kind != Kind::Union {
-                let expect: Option<String> = patterns(size, d, x)
-                    .iter()
-                    .map(|p| pattern_valid(d, x, p).map(|b| if b || d.mac == Mac::ZcPod { '1' } else { '0' }))
-                    .collect();
-                // (a Pod type accepts every pattern; it can only be accepted when every field is Pod)
-                let expect = expect.unwrap_or_else(|| "size-mismatch".into());
+                // (a Pod type accepts every pattern, so it may only be accepted when every pattern is valid)
                 let expect_strict: Option<String> =
                     patterns(size, d, x).iter().map(|p| pattern_valid(d, x, p).map(|b| if b { '1' } else { '0' })).collect();
-                if get("bits") != expect || Some(expect) != expect_strict {
+                if Some(get("bits")) != expect_strict {
                     rec.fail(
                         &format!("bit_pattern_check_{}", d.mac.tok()),
                         &format!("{} [{}] -> bits={} expected {:?}", d.sexpr(), label, get("bits"), expect_strict),
@@ -237,7 +232,7 @@ fn main() {
         }
     } else {
         let mut seen: HashSet<String> = HashSet::new();
-        let mut push = |cases: &mut Vec<Case>, kind: &str, d: &Decl, seen: &mut HashSet<String>| {
+        let push = |cases: &mut Vec<Case>, kind: &str, d: &Decl, seen: &mut HashSet<String>| {
             let line = d.op_line();
             if seen.insert(line.clone()) {
                 cases.push(Case { header: format!("case {} {}", cases.len(), kind), lines: vec![line] });
@@ -292,7 +287,7 @@ fn main() {
                 }
             }
         }
-        let nrand = if args.thorough() { 1200 } else { 60 };
+        let nrand = if args.thorough() { 4000 } else { 250 };
         for _ in 0..nrand {
             let d = gen::random_decl(&mut rng);
             push(&mut cases, "random", &d, &mut seen);
